@@ -48,7 +48,7 @@ def fresh_ops(mesh, fixed, fix_psi, A):
     return ops
 
 
-def operator_case(rep, rng, mesh, mi, small):
+def operator_case(rep, rng, mesh, mi, small, pattern=None):
     em = mesh.edge_mesh
     E = len(em.edges)
     mode = rng.choice(["none", "terminals", "nofix"])
@@ -58,7 +58,18 @@ def operator_case(rep, rng, mesh, mi, small):
     fix_psi = mode != "nofix"
     L = rng.randint(1, 6)
     seq = []
-    for _ in range(L):
+    if pattern is not None:
+        # structured sequences: letters name distinct random potentials, '0' is the zero potential
+        pots = {}
+        for ch in pattern:
+            if ch == "0":
+                seq.append(np.zeros((E, 2)))
+            else:
+                if ch not in pots:
+                    pots[ch] = np.array([[rng.gauss(0, 1), rng.gauss(0, 1)] for _ in range(E)])
+                seq.append(pots[ch].copy())
+        L = len(seq)
+    for _ in range(L if pattern is None else 0):
         r = rng.random()
         if r < 0.2 and seq:
             seq.append(seq[rng.randrange(len(seq))].copy())       # repeat
@@ -122,6 +133,8 @@ def solver_case(rep, rng, dev, kind, screening, ci):
         A = runs.ramp_field_param(0.0, 0.5, 1.0)
     elif kind == "steps":
         A = runs.step_field_param([0.0, 0.3, 0.3, 0.0, 0.2], 0.25)
+    elif kind == "switch_off":
+        A = runs.step_field_param([0.3, 0.0, 0.0, 0.3, 0.0], 0.2)
     else:
         A = 0.2
     seen, held_ids, cur_ids, stale = [], [], [], []
@@ -177,6 +190,10 @@ def run(rep: common.Report, tier: str, seed: int, replay=None) -> int:
         t, ops, case = operator_case(rep, rng, mesh, mi, small=True)
         texts.append(t)
         info.append((ops, case))
+    patterns = ["A0", "A00", "0A", "00A", "AA", "ABA", "A0A", "0A0", "AB0", "AAB", "0", "A", "A0B0", "ABAB0A"]
+    for pi, pat in enumerate(patterns):
+        mesh = meshes.delaunay_mesh(rng, 30, "random")
+        operator_case(rep, rng, mesh, 1000 + pi, small=False, pattern=pat)
     for mi in range(nbig):
         if mi % 2:
             mesh = meshes.delaunay_mesh(rng, rng.choice([100, 200]), "random", smooth=rng.choice([0, 2]))
@@ -192,7 +209,7 @@ def run(rep: common.Report, tier: str, seed: int, replay=None) -> int:
         ndis += cmp_model(rep, out, ops, case)
     # solver level
     dev = meshes.make_device(rng, holes=1, terminals=2, max_edge_length=0.9)
-    plans = [("slow_ramp", False), ("fast_ramp", False), ("steps", False), ("const", False), ("fast_ramp", True)]
+    plans = [("slow_ramp", False), ("fast_ramp", False), ("steps", False), ("switch_off", False), ("const", False), ("fast_ramp", True)]
     if tier == "thorough":
         plans += [("steps", True), ("slow_ramp", True)]
     trig = []
